@@ -80,9 +80,11 @@ def rule_r1(src, rep, reader, names, counts):
                    witness={"code": c, "reader": str(val)})
             rep.case(True, {"code": c, "updates": str(val)} if c in (0, 31, 49) else None)
         else:
-            ok = kind == "raise" or (kind == "ok" and not val)
-            rep.ob("R1-unsupported-code-not-misread", f.where(), f.scope, "SGR %d -> %s %s" % (c, kind, val), ok,
-                   "unsupported code %d is read as %s" % (c, val))
+            # a code outside the statement's supported set: what the reader makes of it is not C05's business (C17 decides that
+            # it cannot make fmtstr raise); only the shape of an answer is checked
+            ok = kind == "raise" or (kind == "ok" and (not val or all(isinstance(u, dict) for u in val)))
+            rep.ob("R1-unsupported-code-answer-is-well-formed", f.where(), f.scope, "SGR %d -> %s %s" % (c, kind, val), ok,
+                   "for code %d the reader answers %s, neither an exception nor a list of updates" % (c, val))
             rep.case(False)
     counts["supported_codes"] = n_codes
     S = sgr.SUPPORTED
